@@ -110,11 +110,7 @@ Theorem C26_accepted_equals_model :
     chk_frames keys avail i (Some (u, b)) = true ->
     matching_frames keys avail i = Some (u', b') ->
     forall f, (In f u <-> In f u') /\ (In f b <-> In f b').
-Proof.
-  intros keys avail i u b u' b' H E.
-  apply (FramesOK_unique keys avail i u b u' b' (chk_frames_sound _ _ _ _ H)).
-  rewrite <- E. apply model_FramesOK.
-Qed.
+Proof. exact accepted_equals_model. Qed.
 
 (** Non-vacuity: a blocking pulse on a 2-qubit frame among five frames. *)
 Example C26_nonvacuous :
